@@ -150,6 +150,67 @@ def type_program(name, body):
             % body.format(N=name))
 
 
+# trait METHODS the expansion brings into scope (`use Trait;` or `use Trait as _;` both do): a caller's own method of the same name,
+# on a receiver that reaches it later in method resolution than the imported trait's impls, must keep its meaning in every user
+# expression of the pattern, whatever other forms the pattern contains
+STD_TRAIT_METHODS = {"AsRef": ["as_ref"], "Borrow": ["borrow"], "Deref": ["deref"], "PartialOrd": ["partial_cmp", "lt", "le", "gt", "ge"],
+                     "PartialEq": ["eq", "ne"], "ToString": ["to_string"], "Debug": ["fmt"], "IntoIterator": ["into_iter"], "Iterator": ["next"]}
+
+
+def imported_trait_methods(recs):
+    import os
+    import re
+    traits = set()
+    for r in recs:
+        if r.status != "ok":
+            continue
+        text = maclib.text_of_tokens(r.tokens).replace("~", "")
+        for m in re.finditer(r"\buse\b ([^;]+);", text):
+            path = m.group(1).replace(" ", "")
+            path = re.sub(r"as_$", "", path) if path.endswith("as_") else path
+            traits.add(path)
+    methods = set()
+    for t in traits:
+        last = [x for x in t.split("::") if x][-1]
+        if "assert_struct" in t:
+            src = open(os.path.join(vlib.REPO, "assert-struct", "src", "lib.rs")).read()
+            m = re.search(r"pub trait %s\b[^{]*\{" % re.escape(last), src)
+            if m:
+                depth, i = 1, m.end()
+                while i < len(src) and depth:
+                    depth += {"{": 1, "}": -1}.get(src[i], 0)
+                    i += 1
+                methods.update(re.findall(r"\bfn (\w+)", re.sub(r"//[^\n]*", "", src[m.end():i])))
+        methods.update(STD_TRAIT_METHODS.get(last, []))
+    return sorted(methods), sorted(traits)
+
+
+METHOD_DECLS = """
+trait CallerExt {{ fn {M}(&self, p: &str) -> bool; }}
+impl CallerExt for str {{ fn {M}(&self, p: &str) -> bool {{ self.starts_with(p) }} }}
+#[derive(Debug)] struct Subj2 {{ name: String, tag: String, ok: bool, o: Option<String>, n: i32 }}
+fn subj2() -> Subj2 {{ Subj2 {{ name: "alice".to_string(), tag: "abc".to_string(), ok: false, o: Some("abc".to_string()), n: 1 }} }}
+"""
+# the caller's method answers `false` for ("abc", "."): a regex `.` would answer true
+METHOD_BODIES = [
+    ("control: the expression outside any assertion", "let t = String::from(\"abc\"); assert!(!t.{M}(\".\"));"),
+    ("operand, no `=~` in the pattern", "let t = String::from(\"abc\"); let s = subj2(); assert_struct!(s, Subj2 {{ ok: == t.{M}(\".\"), .. }});"),
+    ("operand, `=~` on a sibling field", "let t = String::from(\"abc\"); let s = subj2(); assert_struct!(s, Subj2 {{ name: =~ r\"^ali\", ok: == t.{M}(\".\"), .. }});"),
+    ("operand, `=~` with an expression on a sibling field", "let t = String::from(\"abc\"); let pfx = \"^ali\"; let s = subj2(); assert_struct!(s, Subj2 {{ ok: == t.{M}(\".\"), name: =~ pfx, .. }});"),
+    ("operand, `=~` nested in Some", "let t = String::from(\"abc\"); let s = subj2(); assert_struct!(s, Subj2 {{ o: Some(=~ r\"^a\"), ok: == t.{M}(\".\"), .. }});"),
+    ("closure body next to `=~`", "let s = subj2(); assert_struct!(s, Subj2 {{ name: =~ r\"^ali\", tag: |cl_t: &String| !cl_t.{M}(\".\"), .. }});"),
+    ("field-operation method next to `=~`", "let s = subj2(); assert_struct!(s, Subj2 {{ name: =~ r\"^ali\", tag.{M}(\".\"): false, .. }});"),
+    ("field-operation method, string pattern sibling", "let s = subj2(); assert_struct!(s, Subj2 {{ name: \"alice\", tag.{M}(\".\"): false, .. }});"),
+    ("asserted expression next to `=~`", "let t = String::from(\"abc\"); assert_struct!((t.{M}(\".\"), String::from(\"alice\")), (false, =~ r\"^ali\"));"),
+    ("map key / method argument next to `=~`", "let t = String::from(\"abc\"); let s = subj2(); assert_struct!(s, Subj2 {{ name: =~ r\"^ali\", n.eq(&(t.{M}(\".\") as i32)): false, .. }});"),
+]
+
+
+def method_program(name, body):
+    return (e2e.PRELUDE + METHOD_DECLS.format(M=name) + "fn main() {{ std::panic::set_hook(Box::new(|_| {{}})); run_case(\"t\", || {{ %s }}); }}\n".replace("{{", "{").replace("}}", "}")
+            % body.format(M=name))
+
+
 def program(body):
     return e2e.PRELUDE + DECLS + "fn main() { std::panic::set_hook(Box::new(|_| {})); run_case(\"t\", || { %s }); }\n" % body
 
@@ -253,6 +314,33 @@ def run(res):
     res.streams["type-twins"] = {"imported_names": [n for n in imported if n.isidentifier()], "places": len(TYPE_BODIES),
                                  "programs": len(tsrcs), "differing": type_bad}
     e2e.cleanup("c07t")
+    # trait methods the expansion brings into scope
+    mnames, mtraits = imported_trait_methods(oks[:400])
+    msrcs = [method_program("zz_fresh_method", b) for d, b in METHOD_BODIES] + [method_program(n, b) for n in mnames for d, b in METHOD_BODIES]
+    mout = e2e.compile_many(msrcs, run=True, tag="c07m")
+    e2e.cleanup("c07m")
+    mfresh = [verdict(o) for o in mout[:len(METHOD_BODIES)]]
+    if any(v != "pass" for v in mfresh):
+        raise vlib.CheckError("a method twin does not pass with a fresh method name: %s\n%s" % (mfresh, [o["stderr"][-400:] for o in mout[:len(METHOD_BODIES)] if not o["compiled"]][:1]))
+    method_bad = 0
+    skipped = []
+    k = len(METHOD_BODIES)
+    for ni, n in enumerate(mnames):
+        outs = mout[k * (ni + 1):k * (ni + 2)]
+        if verdict(outs[0]) != "pass":
+            skipped.append(n)          # the caller's method of this name is shadowed without any assertion (a prelude trait): not the macro's doing
+            continue
+        for (d, b), o in zip(METHOD_BODIES[1:], outs[1:]):
+            v = verdict(o)
+            if v != "pass":
+                method_bad += 1
+                twin_bad += 1
+                if method_bad <= 3:
+                    res.violation("failing-input", "a caller's own method named `%s` (the name of a method of a trait the expansion imports), called in a pattern "
+                                  "expression (%s): the assertion %s; with the method called zz_fresh_method, and outside any assertion, it passes"
+                                  % (n, d, v), {"method_twin": True, "name": n, "where": d, "body": b, "rustc": o["stderr"][-700:] if v == "does-not-compile" else ""})
+    res.streams["method-twins"] = {"traits_imported_by_the_expansion": mtraits, "method_names": mnames, "shadowed_even_outside_assertions": skipped,
+                                   "places": len(METHOD_BODIES) - 1, "differing": method_bad}
     e2e.cleanup("c07")
     res.streams["twins"] = {"pairs": len(tw), "differing": twin_bad}
     expstage.report_disagreement(res, name, dis, failing > 0 or twin_bad > 0)
@@ -270,6 +358,12 @@ def run(res):
 
 def replay(res, path):
     v = json.load(open(path))
+    if v.get("method_twin"):
+        out = e2e.compile_many([method_program(v["name"], v["body"]), method_program("zz_fresh_method", v["body"])], run=True, tag="c07r")
+        vs = [(e2e.parse_case_lines(o.get("stdout", "")).get("t", {}).get("verdict") if o["compiled"] else "does-not-compile") for o in out]
+        e2e.cleanup("c07r")
+        print("verdicts (method named %s, named zz_fresh_method):" % v["name"], vs)
+        return 1 if vs[0] != vs[1] else 0
     if v.get("type_twin"):
         out = e2e.compile_many([type_program(v["name"], v["body"]), type_program("ZzFresh", v["body"])], run=True, tag="c07r")
         vs = [(e2e.parse_case_lines(o.get("stdout", "")).get("t", {}).get("verdict") if o["compiled"] else "does-not-compile") for o in out]
